@@ -89,7 +89,7 @@ def _quadrature(k, n, G):
 
 def BOUNDED(tier, seed):
     fails = []
-    cases = [(1, 2, 24), (1, 3, 8), (2, 3, 16), (2, 4, 6)] if tier == 'quick' else [(1, 2, 100), (1, 3, 20), (2, 3, 60), (2, 4, 12)]
+    cases = [(1, 2, 24), (1, 3, 8), (2, 3, 16), (2, 4, 6)] if tier == 'quick' else [(1, 2, 40), (1, 3, 12), (2, 3, 24), (2, 4, 8)]
     evals = 0
     out = []
     for k, n, G in cases:
